@@ -50,10 +50,22 @@ class Trace(object):
         self.exc = None              # (idx, cmd, repr) exception raised by the code under observation
         self.episodes = []           # dict(open=idx, close=idx|None, by=...)
         self.final = None
+        self.kmis = []               # dict(axis, start, end): tracked frame differs from what K2's own arithmetic predicts
+        self.kmis_active = {}
+        self.kmis_steps = 0
 
     def mechanism_at(self, idx, since=None):
         """Known-finding mechanism explaining a violation at step idx (first-cause rule): the mechanism of the earliest
         tracking divergence that is active at that step; None when there is none or it is unexplained."""
+        m = self._mechanism_at(idx, since)
+        if m == "g92_xyz_offset_sign" and K2_MODEL_DECIDES:
+            # K2 is recorded by its exact arithmetic: a tracked frame that differs from what that arithmetic predicts is something else
+            lo = idx if since is None else min(idx, since)
+            if any(e["start"] <= idx and (e["end"] is None or lo < e["end"]) for e in self.kmis):
+                return None
+        return m
+
+    def _mechanism_at(self, idx, since=None):
         lo = idx if since is None else min(idx, since)
         act = [e for e in self.div_log if e["start"] <= idx and (e["end"] is None or lo < e["end"])]
         taint = [t for t in self.taints if t["start"] <= idx and (t["end"] is None or lo < t["end"])]
@@ -75,6 +87,9 @@ class Trace(object):
         return first["mech"]
 
 
+K2_MODEL_DECIDES = True
+
+
 class Engine(object):
     def __init__(self, case, driver=None, exact=False, watchdog=2.0):
         self.case = case
@@ -85,6 +100,7 @@ class Engine(object):
         g90e = bool(self.settings.get("g90e", False))
         self.A = Printer(g90e)
         self.B = Printer(g90e)
+        self.K = Printer(g90e, plugin_g92=True)      # follows the file like B, with the filter's own G92 X/Y/Z arithmetic
         self.exact = exact or bool(case.get("exact"))
         self.enabled = True
         self.open = False
@@ -165,6 +181,18 @@ class Engine(object):
             now["mode"] = "mode"
         if any(abs(u - B.unit) > 0 for u in hs["unit"]):
             now["unit"] = "unit"
+        K = self.K
+        for k, ax in enumerate("xyz"):
+            v = hs[ax]
+            off = v is None or abs(v - K.pos[k]) > TOL or abs(hs["offset"][k] + hs["home"][k] - K.shift[k]) > TOL
+            if off:
+                tr.kmis_steps += 1
+                if ax not in tr.kmis_active:
+                    ent = dict(axis=ax, start=rec["idx"], end=None, cmd=rec.get("cmd"))
+                    tr.kmis_active[ax] = ent
+                    tr.kmis.append(ent)
+            elif ax in tr.kmis_active:
+                tr.kmis_active.pop(ax)["end"] = rec["idx"]
         code = rec.get("code")
         letters = set(l for l, v in rec.get("words", []) if v is not None)
         mech = None
@@ -285,6 +313,11 @@ class Engine(object):
         f0 = len(self.B.fw_log)
         Bb = rec["B_before"]
         self.B.execute(cmd)
+        try:
+            self.K.execute(cmd)
+            del self.K.moves[:]
+        except Exception:  # noqa: B902
+            pass
         rec["b_moves"] = self.B.moves[b0:]
         rec["b_fw"] = self.B.fw_log[f0:]
         if code == "G28":
@@ -389,6 +422,11 @@ class Engine(object):
             self.active = True
             self.enabled = True
             self.homed = False
+            self.K = Printer(self.K.g90e, plugin_g92=True)
+            self.trace.kmis_active = {}
+            for e in self.trace.kmis:
+                if e["end"] is None:
+                    e["end"] = rec["idx"]
             if self.open:
                 self._close(rec, "newprint")
             self.trace.div_active = {}
